@@ -8,7 +8,7 @@ VERIF = os.path.dirname(os.path.dirname(os.path.abspath(__file__)))
 CHECKS = {
     "C01": dict(
         technique="property-based testing (Hypothesis): constructed histories x methods x schedules; validity-predicate oracle replaying remaining lot balances with the method's primary ranking key + end-to-end tier (files -> CLI -> report cells -> same predicate)",
-        text="Generated-input search over valid single-asset histories (ties, partial lots, income events, method changes, mixed offsets) against a ranking predicate computed from the input rows; finds ordering defects such as the HIFO/LOFO heap bug (F1) within seconds. Search, not proof: absence is not established. Second tier, same predicate: generated multi-asset files through the real console entry point, figures read back from rp2_full_report.ods with no rp2 code in the checking process.",
+        text="Generated-input search over valid single-asset histories (ties, partial lots, income events, method changes, mixed offsets) against a ranking predicate computed from the input rows; finds ordering defects such as the HIFO/LOFO heap bug (F1) within seconds. Search, not proof: absence is not established. Second tier, same predicate: generated multi-asset files through the real console entry point, figures read back from rp2_full_report.ods with no rp2 code in the checking process. One case in sixty is a long 'drip' history (70-160 small disposals from 2-4 lots).",
         note="Trusts CPython fractions/decimal, Hypothesis, and the 60-line predicate in rp2v/checks/c01.py; ties in the primary key are not judged; rp2 driven in-process through its public API (editable install of /repo/src).",
         design="DESIGN.md section 4 / C01",
     ),
@@ -27,7 +27,7 @@ CHECKS = {
     "C04": dict(
         technique="property-based testing (Hypothesis) against an exact rational (fractions.Fraction) reference model with a 1e-15 relative bound, plus a runtime Decimal->float conversion monitor + end-to-end tier (files -> CLI -> report cells -> same predicate)",
         text="Wide-range numerics (1e-11..1e9 units, prices 1e-8..1e7, supplied fiat columns) compared per fraction and re-assembled per event / per fully consumed lot against exact arithmetic; largest observed relative error is reported (about 1e-30). Second tier, same predicate: generated multi-asset files through the real console entry point, figures read back from rp2_full_report.ods with no rp2 code in the checking process.",
-        note="Monitor wraps RP2Decimal.__float__ from outside the package; supplied fiat values > 0 and crypto_out_with_fee consistent (R4).",
+        note="Monitor wraps RP2Decimal.__float__ from outside the package; supplied fiat values > 0 (except the fiat value of a disposal's crypto fee, also supplied as exactly 0) and crypto_out_with_fee consistent (R4).",
         design="DESIGN.md section 4 / C04",
     ),
     "C05": dict(
@@ -44,7 +44,7 @@ CHECKS = {
     ),
     "C07": dict(
         technique="property-based testing (Hypothesis): per-account flow model from the rows vs balance_set, plus reconciliation sum(final) = lots - consumed + end-to-end tier (files -> CLI -> report cells -> same predicate)",
-        text="Multi-account (joint filing) histories with transfers incl. to-self, to-date cuts and, with -n, injected overdrafts; exact equality of acquired/sent/received/final per account and of the reconciliation identity. Second tier, same predicate: generated multi-asset files through the real console entry point, figures read back from rp2_full_report.ods with no rp2 code in the checking process. The balances are reconciled a second time through the sold percentages of the acquisitions (API and the report's Sent/Sold column), and a from-date must not change a single balance figure.",
+        text="Multi-account (joint filing) histories with transfers incl. to-self, to-date cuts and, with -n, injected overdrafts; exact equality of acquired/sent/received/final per account and of the reconciliation identity. Second tier, same predicate: generated multi-asset files through the real console entry point, figures read back from rp2_full_report.ods with no rp2 code in the checking process. The balances are reconciled a second time through the sold percentages of the acquisitions (API and the report's Sent/Sold column), and a from-date must not change a single balance figure. With -n, debits are also moved to an account that nothing funds (the unrecorded-transfer scenario).",
         note="Per-holder totals are a report-level figure (C13); whole-holding over-spends are C02's subject and skipped.",
         design="DESIGN.md section 4 / C07",
     ),
@@ -62,7 +62,7 @@ CHECKS = {
     ),
     "C10": dict(
         technique="metamorphic property-based testing (Hypothesis): unfiltered vs to-date-only vs from+to runs of the same history; independent recount of k/n labels + end-to-end tier (two CLI runs per case, window vs none, -m or [accounting_methods])",
-        text="Windows on/around/between transaction dates, empty windows, from==to; identical figures for shown fractions, exact window membership of transactions, balances/average price/labels as of the to-date, yearly lines from the from-year. One listed known finding (F7, non-monotone local dates) is matched by signature. Second tier: the console entry point run with and without the window on the same files; windowed detail rows must be the unfiltered rows dated in the window, figure by figure. The average price is also compared with an independent value (cost incl. fees of everything acquired up to the to-date / amount acquired).",
+        text="Windows on/around/between transaction dates, empty windows, from==to; identical figures for shown fractions, exact window membership of transactions, balances/average price/labels as of the to-date, yearly lines from the from-year. One listed known finding (F7, non-monotone local dates) is matched by signature. Second tier: the console entry point run with and without the window on the same files; windowed detail rows must be the unfiltered rows dated in the window, figure by figure. The average price is also compared with an independent value (cost incl. fees of everything acquired up to the to-date / amount acquired), and the to-date run's yearly lines with sums over the unfiltered fractions dated up to the to-date. Sub-generators: same-instant twins with two own dates; dozens of fractions with one timestamp and the window starting that day.",
         note="Date-monotone histories (R3) except in the sub-generator aimed at F7; sold-percentage is judged by C13.",
         design="DESIGN.md section 4 / C10",
     ),
@@ -75,7 +75,7 @@ CHECKS = {
     "C12": dict(
         category="fault_enumeration",
         technique="fault injection driven by Hypothesis: one fault from a ~110-class catalogue at a generated applicable position of a generated valid input; fail-closed predicate on real CLI runs",
-        text="Each case is one real run of rp2_<country> on a valid base input (several flavours: mixed, buy-only, income-only, transfer-heavy) with exactly one documented fault; fault classes are weighted by their number of applicable positions; oracle = non-zero exit AND error text AND no report written. Fault classes hit are listed in the evidence; a sixth of the cases also verify that the fault-free base is accepted. A third of the row / structure / config faults are run with a -f / -t window as well (a fault in a row outside the window is still a fault).",
+        text="Each case is one real run of rp2_<country> on a valid base input (several flavours: mixed, buy-only, income-only, transfer-heavy) with exactly one documented fault; fault classes are weighted by their number of applicable positions; oracle = non-zero exit AND error text AND no report written. Fault classes hit are listed in the evidence; a sixth of the cases also verify that the fault-free base is accepted. A third of the row / structure / config faults are run with a -f / -t window as well (a fault in a row outside the window is still a fault). Base inputs carry exchange-supplied fiat values (zero price / zero amount faults on such rows are classes of their own); unknown names include configured names padded with white space.",
         note="Faults only in data rows; R5/R6 ambiguities are not injected; which message is printed is not asserted.",
         design="DESIGN.md section 4 / C12",
     ),
@@ -123,7 +123,7 @@ CHECKS = {
     ),
     "C20": dict(
         technique="property-based testing (Hypothesis) of real rp2_jp runs with read-back of sheet names, transaction rows and cross-sheet formula text of tax_report_jp.ods",
-        text="Sparse / non-consecutive years, years first met out of order across tables, disposal-only years, -g en / kl / default; exact sheet set, per-year transaction rows (multiset + time order), opening-balance chain to the greatest earlier year recognised through the closing cells' own formulas, summary lines. Found and now guards F8 (fixed). Summary lines must point at the result cells (average price, closing balances, net income) recognised on the asset-year sheet by their own formulas.",
+        text="Sparse / non-consecutive years, years first met out of order across tables, disposal-only years, -g en / kl / default; exact sheet set, per-year transaction rows (multiset + time order), opening-balance chain to the greatest earlier year recognised through the closing cells' own formulas, summary lines. Found and now guards F8 (fixed). Summary lines must point at the result cells (average price, closing balances, net income) recognised on the asset-year sheet by their own formulas. A flavour places entries of different time zones within an hour of New Year (own years Y, Y-1, Y along the time axis); duplicate sheet names are visible to the check.",
         note="yen = amount x spot price in this generator; DONATE yen cell (formatted text) and fee-less transfers not judged; values below 1e-12 are dust (R13).",
         design="DESIGN.md section 4 / C20",
     ),
